@@ -198,6 +198,10 @@ def run_formatter(cfg, text, via='str'):
         f.parseStr(DIRTY)
         f.getHTML()
         f.parseStr(text)
+    elif via == 'reusefile':
+        f.parseStr(DIRTY)
+        with open(tmp_file(text), 'r', encoding='utf-8', newline='') as fh:
+            f.parseFile(fh)
     else:
         f.parseStr(text)
     return f, f.getHTML()
@@ -559,7 +563,7 @@ def gen_cases(tier, rng, classes=CLASSES, n_quick=5000, n_thorough=60000):
             pre = [random_cfg(rng), random_cfg(rng)]
         elif x < 0.40:
             pre = [dict(cfg)]
-        via = rng.choice(('str', 'str', 'str', 'str', 'bytes', 'feed', 'reuse', 'reuse', 'parser', 'parser', 'file', 'fileobj'))
+        via = rng.choice(('str', 'str', 'str', 'str', 'bytes', 'feed', 'reuse', 'reuse', 'parser', 'parser', 'file', 'fileobj', 'reusefile'))
         if via in ('bytes', 'file') and not cfg['enc']:
             via = 'str'
         if via == 'parser' and cfg['cls'] not in ('pretty', 'mini'):
